@@ -931,6 +931,10 @@ func c13Scenarios(tier string) []*world.Scenario {
 			}
 		}
 	}
+	// round 10: each hop of a redirect is answered inside the request timeout, their sum is not
+	for _, ask := range []bool{false, true} {
+		out = append(out, SlowHops("C13", ask, 2))
+	}
 	return out
 }
 
